@@ -1,0 +1,28 @@
+//go:build verif
+
+/*
+Copyright SecureKey Technologies Inc. All Rights Reserved.
+
+SPDX-License-Identifier: Apache-2.0
+*/
+
+package batch
+
+import "time"
+
+// This file is compiled only with the "verif" build tag. It gives a deterministic simulator
+// control over *when* the writer processes its queue; it does not change what the writer does.
+
+// VerifProcessAvailable runs exactly one processing pass (the body of one ticker case of main).
+func (r *Writer) VerifProcessAvailable(forceCut bool) uint {
+	return r.processAvailable(forceCut)
+}
+
+// VerifSetTickers replaces the monitor and batch-timeout ticker channels. It must be called before Start.
+func (r *Writer) VerifSetTickers(monitor, timeout <-chan time.Time) {
+	r.monitorTicker.Stop()
+	r.batchTimeoutTicker.Stop()
+
+	r.monitorTicker = &time.Ticker{C: monitor}
+	r.batchTimeoutTicker = &time.Ticker{C: timeout}
+}
